@@ -462,8 +462,37 @@ class World(object):
         return self.trap.flush()
 
 
+_CACHED = None
+
+
+def _memoised_functions():
+    """functools caches at module or class level in txtorcon: state that would leak from one execution into the next"""
+    global _CACHED
+    if _CACHED is None:
+        import sys
+        found = []
+        for name, mod in list(sys.modules.items()):
+            if not (name == 'txtorcon' or name.startswith('txtorcon.')) or mod is None:
+                continue
+            for obj in list(vars(mod).values()):
+                if hasattr(obj, 'cache_clear') and callable(obj.cache_clear):
+                    found.append(obj)
+                elif isinstance(obj, type) and getattr(obj, '__module__', '') == name:
+                    for sub in list(vars(obj).values()):
+                        f = getattr(sub, '__func__', sub)
+                        if hasattr(f, 'cache_clear') and callable(f.cache_clear):
+                            found.append(f)
+        _CACHED = found
+    return _CACHED
+
+
 def reset_globals():
     """module-level state txtorcon keeps between calls"""
+    for f in _memoised_functions():
+        try:
+            f.cache_clear()
+        except Exception:
+            pass
     try:
         import txtorcon.circuit as c
         if hasattr(c._get_circuit_attacher, 'attacher'):
